@@ -11,7 +11,7 @@ EXPLANATION = (
     "either crate; (R3) the paths written by the save layer derive from keys of the modified-files map, and keys enter "
     "that map only in get_or_load from names carried by the file patch; (R4) permissions are set on the freshly created "
     "handle, never by path; (R5) mmap mappings are PROT_READ + MAP_PRIVATE and unmapped only in Drop. With POSIX "
-    "unlink+create semantics these imply the property for tree files. `.pc/**` is the tool's own metadata area and exempt."
+    "unlink+create semantics these imply the property for tree files. `.pc/**` is the tool's own metadata area and exempt. (R8) `existed` of a record built from the disk is what the load answered, and is never rewritten."
 )
 LEVEL_NOTE = "Assumes POSIX unlink/O_CREAT semantics; symlinks already inside the tree are not a property of patch names."
 
